@@ -149,6 +149,23 @@ func (s c08svc) Nils(p *int, l []int, m map[string]int, x interface{}, e *GInner
 	return d
 }
 
+// c08NetRPC has methods of the net/rpc shape (args, *reply) error, published with AddNetRPCMethods. They build on
+// what they find in the reply - which is a fresh zero value on every call.
+type c08NetRPC struct{ log *c08log }
+
+type C08Pair struct{ A, B int }
+
+func (t *c08NetRPC) RpcAdd(p C08Pair, reply *int) error {
+	t.log.add("rpcadd", p.A, p.B)
+	*reply += p.A + p.B
+	return nil
+}
+func (t *c08NetRPC) RpcWords(w string, reply *[]string) error {
+	t.log.add("rpcwords", w)
+	*reply = append(*reply, w)
+	return nil
+}
+
 type c08proxy struct {
 	Nop    func() error
 	Inc    func(x int) (int, error)
@@ -325,6 +342,11 @@ func scenC08(r *Run) {
 		}
 		service.AddFunction(sv.MethodByName(nn[0]).Interface(), alias)
 	}
+	if ns != "" {
+		service.AddNetRPCMethods(&c08NetRPC{log}, ns)
+	} else {
+		service.AddNetRPCMethods(&c08NetRPC{log})
+	}
 	service.AddMissingMethod(func(name string, args []interface{}) ([]interface{}, error) {
 		log.add("missing:"+name, args...)
 		return []interface{}{"missing " + name + " " + fmt.Sprint(len(args))}, nil
@@ -475,12 +497,16 @@ func scenC08(r *Run) {
 				a = append(a, r.genString())
 			}
 			return a
+		case "RpcAdd":
+			return []interface{}{C08Pair{A: r.Plan(1000), B: r.Plan(1000)}}
+		case "RpcWords":
+			return []interface{}{r.genString()}
 		case "Absent":
 			return []interface{}{r.Plan(10), "y"}
 		}
 		return nil
 	}
-	names := append(append([]string{}, c08Names...), "Absent", "Deep.Inc", "Deep.Er.Inc", "Deep.Er.Pair")
+	names := append(append([]string{}, c08Names...), "Absent", "Deep.Inc", "Deep.Er.Inc", "Deep.Er.Pair", "RpcAdd", "RpcWords")
 	for c := 0; c < ncallers*perCaller; c++ {
 		id++
 		n := names[r.Plan(len(names))]
@@ -498,6 +524,23 @@ func scenC08(r *Run) {
 	refLog := &c08log{}
 	refSvc := reflect.ValueOf(c08svc{refLog})
 	for _, cl := range calls {
+		if cl.name == "RpcAdd" || cl.name == "RpcWords" {
+			// reference: the method on a fresh zero reply
+			ref := &c08NetRPC{refLog}
+			before := len(refLog.entries)
+			if cl.name == "RpcAdd" {
+				var reply int
+				ref.RpcAdd(cl.args[0].(C08Pair), &reply)
+				cl.want, cl.rets = []interface{}{reply}, []reflect.Type{reflect.TypeOf(0)}
+			} else {
+				var reply []string
+				ref.RpcWords(cl.args[0].(string), &reply)
+				cl.want, cl.rets = []interface{}{reply}, []reflect.Type{reflect.TypeOf([]string(nil))}
+			}
+			cl.logWant = refLog.entries[before]
+			cl.viaRaw = true
+			continue
+		}
 		if cl.name == "Absent" {
 			cl.want = []interface{}{fmt.Sprintf("missing noSuchMethod %d", len(cl.args))}
 			cl.logWant = "missing:noSuchMethod(" + c08render(cl.args) + ")"
